@@ -6,3 +6,8 @@ import Stackage.Gen.Conds
 import Stackage.Gen.Facts
 import Stackage.Model.Val
 import Stackage.Model.Ops
+import Stackage.Gen.Opts
+import Stackage.Model.LogLevel
+import Stackage.Model.Options
+import Stackage.Spec.OptSpec
+import Stackage.Spec.OptLink
